@@ -7,6 +7,7 @@ package main
 
 import (
 	"fmt"
+	"go/constant"
 	"go/token"
 	"go/types"
 	"strings"
@@ -370,7 +371,7 @@ func ruleC29(c *Ctx, r *Report) {
 					if !ok1 {
 						base, ok1 = loadOfField(cv, fPassword)
 					}
-					if !ok1 || (elem != nil && base != elem) {
+					if !ok1 || (elem != nil && !equivValue(base, elem, 6)) {
 						okElem = false
 						break
 					}
@@ -402,14 +403,14 @@ func ruleC29(c *Ctx, r *Report) {
 			// users[user.UserName] = append(users[user.UserName], user.Password) for the same element
 			mu := upUsers[0]
 			kb, ok1 := loadOfField(mu.Key, fUserName)
-			okU := ok1 && (elem == nil || kb == elem)
+			okU := ok1 && (elem == nil || equivValue(kb, elem, 6))
 			okP := false
 			if ap, ok := stripValue(mu.Value).(*ssa.Call); ok {
 				if b, ok := ap.Call.Value.(*ssa.Builtin); ok && b.Name() == "append" && len(ap.Call.Args) == 2 {
 					if lk, ok := stripValue(ap.Call.Args[0]).(*ssa.Lookup); ok && mapOfField(lk.X, fUsers) {
-						if b2, ok := loadOfField(lk.Index, fUserName); ok && b2 == kb {
+						if b2, ok := loadOfField(lk.Index, fUserName); ok && equivValue(b2, kb, 6) {
 							for _, v := range variadicElems(ap.Call.Args[1]) {
-								if b3, ok := loadOfField(v, fPassword); ok && b3 == kb {
+								if b3, ok := loadOfField(v, fPassword); ok && equivValue(b3, kb, 6) {
 									okP = true
 								}
 							}
@@ -425,7 +426,8 @@ func ruleC29(c *Ctx, r *Report) {
 		}
 	}
 
-	// ---- (clear)
+	// ---- (clear)  (edits may live in unexported helpers of UserManager called from ClearNamespaceUsers: they are
+	// analysed as if inlined — keys are resolved through the call's arguments, guards count at the call site)
 	{
 		name := c.FuncName(clear)
 		var nsParam *ssa.Parameter
@@ -434,115 +436,204 @@ func ruleC29(c *Ctx, r *Report) {
 				nsParam = p
 			}
 		}
-		// guard edges: rangeValue == namespace (true edge)
+		// guard edges: `stored namespace == namespace` (true edge of ==, false edge of !=)
 		var guards []CondEdge
 		allInstrs(clear, func(in ssa.Instruction) {
 			b, ok := in.(*ssa.BinOp)
-			if !ok || b.Op != token.EQL {
+			if !ok || (b.Op != token.EQL && b.Op != token.NEQ) {
 				return
 			}
 			x, y := stripValue(b.X), stripValue(b.Y)
 			if (rangeExtractOf(x, fNS, 2) && y == ssa.Value(nsParam)) || (rangeExtractOf(y, fNS, 2) && x == ssa.Value(nsParam)) {
 				for _, e := range condEdges(b) {
-					if e.Val {
+					if e.Val == (b.Op == token.EQL) {
 						guards = append(guards, e)
 					}
 				}
 			}
 		})
-		guarded := func(in ssa.Instruction) bool {
-			return len(guards) > 0 && edgesDominate(clear, guards, in.Block())
+		guarded := func(at ssa.Instruction) bool {
+			return len(guards) > 0 && edgesDominate(clear, guards, at.Block())
 		}
+		type edit struct {
+			in      ssa.Instruction
+			which   string // users | userNamespaces
+			kind    string // delete | update
+			key     ssa.Value
+			guardAt ssa.Instruction
+			val     ssa.Value // stored value (update)
+		}
+		type cmp struct {
+			in      ssa.Instruction
+			other   ssa.Value // resolved in clear's frame
+			listIdx ssa.Value // resolved index of the users[...] lookup the element comes from
+		}
+		var edits []edit
+		var cmps []cmp
+		var walk func(fn *ssa.Function, subst map[*ssa.Parameter]ssa.Value, guardAt ssa.Instruction, depth int)
+		walk = func(fn *ssa.Function, subst map[*ssa.Parameter]ssa.Value, guardAt ssa.Instruction, depth int) {
+			res := func(v ssa.Value) ssa.Value {
+				v = stripValue(resolveLoad(stripValue(v)))
+				if p, ok := v.(*ssa.Parameter); ok {
+					if a, ok := subst[p]; ok {
+						return a
+					}
+				}
+				return v
+			}
+			at := func(in ssa.Instruction) ssa.Instruction {
+				if guardAt != nil {
+					return guardAt
+				}
+				return in
+			}
+			allInstrs(fn, func(in ssa.Instruction) {
+				switch x := in.(type) {
+				case *ssa.MapUpdate:
+					if mapOfField(x.Map, fNS) {
+						edits = append(edits, edit{in, "userNamespaces", "update", res(x.Key), at(in), x.Value})
+					} else if mapOfField(x.Map, fUsers) {
+						edits = append(edits, edit{in, "users", "update", res(x.Key), at(in), x.Value})
+					}
+				case *ssa.BinOp:
+					if (x.Op == token.NEQ || x.Op == token.EQL) && isStringType(x.X.Type()) {
+						var other, elem ssa.Value
+						if elemOfMapSlice(x.X, fUsers) {
+							other, elem = x.Y, x.X
+						} else if elemOfMapSlice(x.Y, fUsers) {
+							other, elem = x.X, x.Y
+						}
+						if other != nil {
+							var idx ssa.Value
+							if u, ok := stripValue(resolveLoad(stripValue(elem))).(*ssa.UnOp); ok {
+								if ia, ok := u.X.(*ssa.IndexAddr); ok {
+									if lk, ok := stripValue(ia.X).(*ssa.Lookup); ok {
+										idx = res(lk.Index)
+									}
+								}
+							}
+							cmps = append(cmps, cmp{in, res(other), idx})
+						}
+					}
+				case *ssa.Call:
+					if b, ok := x.Call.Value.(*ssa.Builtin); ok {
+						if b.Name() == "delete" && len(x.Call.Args) == 2 {
+							if mapOfField(x.Call.Args[0], fNS) {
+								edits = append(edits, edit{in, "userNamespaces", "delete", res(x.Call.Args[1]), at(in), nil})
+							} else if mapOfField(x.Call.Args[0], fUsers) {
+								edits = append(edits, edit{in, "users", "delete", res(x.Call.Args[1]), at(in), nil})
+							}
+						}
+						return
+					}
+					h := staticCallee(&x.Call)
+					if depth == 0 || h == nil || h == fn || h == clear || len(h.Blocks) == 0 || h.Signature.Recv() == nil || namedOf(h.Signature.Recv().Type()) != um {
+						return
+					}
+					sub2 := map[*ssa.Parameter]ssa.Value{}
+					for k, p := range h.Params {
+						if k < len(x.Call.Args) {
+							sub2[p] = res(x.Call.Args[k])
+						}
+					}
+					walk(h, sub2, at(in), depth-1)
+				}
+			})
+		}
+		walk(clear, map[*ssa.Parameter]ssa.Value{}, nil, 2)
 		n := 0
-		allInstrs(clear, func(in ssa.Instruction) {
-			var m, key ssa.Value
-			kind := ""
-			switch x := in.(type) {
-			case *ssa.MapUpdate:
-				m, key, kind = x.Map, x.Key, "update"
-			case *ssa.Call:
-				if b, ok := x.Call.Value.(*ssa.Builtin); ok && b.Name() == "delete" && len(x.Call.Args) == 2 {
-					m, key, kind = x.Call.Args[0], x.Call.Args[1], "delete"
-				}
-			}
-			if m == nil {
-				return
-			}
-			isNS, isUsers := mapOfField(m, fNS), mapOfField(m, fUsers)
-			if !isNS && !isUsers {
-				return
-			}
+		for _, e := range edits {
 			n++
-			which := "users"
-			if isNS {
-				which = "userNamespaces"
+			cons := fmt.Sprintf("clear:%s:%s#%d", e.which, e.kind, n)
+			if !guarded(e.guardAt) {
+				r.viol(rule, name, cons, c.Pos(e.in.Pos()), "this edit of the credential index is not confined to entries whose stored namespace equals the namespace being cleared: reloading or deleting one namespace changes another namespace's credentials")
+				continue
 			}
-			cons := fmt.Sprintf("clear:%s:%s#%d", which, kind, n)
-			if !guarded(in) {
-				r.viol(rule, name, cons, c.Pos(in.Pos()), "this edit of the credential index is not confined to entries whose stored namespace equals the namespace being cleared: reloading or deleting one namespace changes another namespace's credentials")
-				return
-			}
-			if isNS {
-				if kind == "delete" && rangeExtractOf(key, fNS, 1) {
-					r.ok(rule, name, cons, c.Pos(in.Pos()), "removes the iterated entry, under `stored namespace == namespace`")
+			if e.which == "userNamespaces" {
+				if e.kind == "delete" && rangeExtractOf(e.key, fNS, 1) {
+					r.ok(rule, name, cons, c.Pos(e.in.Pos()), "removes the iterated entry, under `stored namespace == namespace`")
 				} else {
-					r.viol(rule, name, cons, c.Pos(in.Pos()), "ClearNamespaceUsers changes a userNamespaces entry other than the one it is iterating")
+					r.viol(rule, name, cons, c.Pos(e.in.Pos()), "ClearNamespaceUsers changes a userNamespaces entry other than the one it is iterating")
 				}
-				return
+				continue
 			}
-			// users: the user name is the key's own component
-			if i, ok := keyComponentOf(key, fNS); ok {
-				r.ok(rule, name, cons, c.Pos(in.Pos()), fmt.Sprintf("the user whose password list is edited is field #%d of the iterated key", i))
-			} else if fromDecode(key, fNS) {
-				r.viol(rule, name, cons, c.Pos(in.Pos()), "the user name is decoded from a string key: for a user name or password containing the separator the decode yields another user/password, so another namespace's credential is removed")
+			if i, ok := keyComponentOf(e.key, fNS); ok {
+				r.ok(rule, name, cons, c.Pos(e.in.Pos()), fmt.Sprintf("the user whose password list is edited is field #%d of the iterated key", i))
+			} else if fromDecode(e.key, fNS) {
+				r.viol(rule, name, cons, c.Pos(e.in.Pos()), "the user name is decoded from a string key: for a user name or password containing the separator the decode yields another user/password, so another namespace's credential is removed")
 			} else {
-				r.viol(rule, name, cons, c.Pos(in.Pos()), "the user whose password list is edited is not a component of the iterated key")
+				r.viol(rule, name, cons, c.Pos(e.in.Pos()), "the user whose password list is edited is not a component of the iterated key")
 			}
-		})
+		}
 		if n < 3 {
 			r.undecided(rule, name, "clear:edits", c.Pos(clear.Pos()), "expected the removal from userNamespaces and the delete/update of users")
 		}
-		// the password filtered out is the key's own password component, and it is a different field than the user name
+		// the password filtered out is the key's own password component, a different field than the user name
 		np := 0
-		allInstrs(clear, func(in ssa.Instruction) {
-			b, ok := in.(*ssa.BinOp)
-			if !ok || (b.Op != token.NEQ && b.Op != token.EQL) || !isStringType(b.X.Type()) {
-				return
-			}
-			// one side is an element of users[...]
-			var other ssa.Value
-			if elemOfMapSlice(b.X, fUsers) {
-				other = b.Y
-			} else if elemOfMapSlice(b.Y, fUsers) {
-				other = b.X
-			} else {
-				return
-			}
+		for _, cm := range cmps {
 			np++
 			cons := fmt.Sprintf("clear:password-compare#%d", np)
-			if i, ok := keyComponentOf(other, fNS); ok {
-				// must differ from the field used as user name
+			if i, ok := keyComponentOf(cm.other, fNS); ok {
 				uidx := -1
-				allInstrs(clear, func(in2 ssa.Instruction) {
-					if lk, ok := in2.(*ssa.Lookup); ok && mapOfField(lk.X, fUsers) {
-						if j, ok := keyComponentOf(lk.Index, fNS); ok {
-							uidx = j
-						}
+				if cm.listIdx != nil {
+					if j, ok := keyComponentOf(cm.listIdx, fNS); ok {
+						uidx = j
 					}
-				})
-				if uidx >= 0 && uidx != i {
-					r.ok(rule, name, cons, c.Pos(in.Pos()), fmt.Sprintf("the password removed is field #%d of the iterated key (user name is field #%d)", i, uidx))
-				} else {
-					r.viol(rule, name, cons, c.Pos(in.Pos()), "the value compared with the stored passwords is not the password component of the iterated key")
 				}
-			} else if fromDecode(other, fNS) {
-				r.viol(rule, name, cons, c.Pos(in.Pos()), "the password to remove is decoded from a string key: a password containing the separator is cut short, so the namespace's own password stays and another namespace's password equal to the prefix is removed")
+				if uidx >= 0 && uidx != i {
+					r.ok(rule, name, cons, c.Pos(cm.in.Pos()), fmt.Sprintf("the password removed is field #%d of the iterated key (user name is field #%d)", i, uidx))
+				} else {
+					r.viol(rule, name, cons, c.Pos(cm.in.Pos()), "the value compared with the stored passwords is not the password component of the iterated key")
+				}
+			} else if fromDecode(cm.other, fNS) {
+				r.viol(rule, name, cons, c.Pos(cm.in.Pos()), "the password to remove is decoded from a string key: a password containing the separator is cut short, so the namespace's own password stays and another namespace's password equal to the prefix is removed")
 			} else {
-				r.viol(rule, name, cons, c.Pos(in.Pos()), "the password removed from users is not a component of the iterated key")
+				r.viol(rule, name, cons, c.Pos(cm.in.Pos()), "the password removed from users is not a component of the iterated key")
 			}
-		})
+		}
 		if np == 0 {
 			r.undecided(rule, name, "clear:password-compare", c.Pos(clear.Pos()), "no comparison between the stored passwords and the cleared credential's password found")
+		}
+		// the filtered list is built from nil (checked where the update happens)
+		for _, e := range edits {
+			if e.which != "users" || e.kind != "update" {
+				continue
+			}
+			okBase := true
+			seen := map[ssa.Value]bool{}
+			var walkv func(v ssa.Value)
+			walkv = func(v ssa.Value) {
+				v = stripValue(v)
+				if seen[v] {
+					return
+				}
+				seen[v] = true
+				switch x := v.(type) {
+				case *ssa.Phi:
+					for _, ed := range x.Edges {
+						walkv(ed)
+					}
+				case *ssa.Call:
+					if b, ok := x.Call.Value.(*ssa.Builtin); ok && b.Name() == "append" {
+						walkv(x.Call.Args[0])
+						return
+					}
+					okBase = false
+				case *ssa.Const:
+					if !x.IsNil() {
+						okBase = false
+					}
+				case *ssa.MakeSlice:
+				default:
+					okBase = false
+				}
+			}
+			walkv(e.val)
+			if okBase {
+				r.ok(rule, name, "clear:new-list", c.Pos(e.in.Pos()), "the filtered password list is built from nil, not in place")
+			} else {
+				r.viol(rule, name, "clear:new-list", c.Pos(e.in.Pos()), "the filtered password list reuses the existing list's backing array (filtered in place): a list still shared with another UserManager is rewritten under it")
+			}
 		}
 	}
 
@@ -687,14 +778,9 @@ func ruleC29(c *Ctx, r *Report) {
 	{
 		name := c.FuncName(hhr)
 		mLookup := c.Method(serverRel, "Manager", "GetNamespaceByUser")
-		checks := map[*ssa.Function]bool{}
-		for _, mname := range []string{"CheckPassword", "CheckHashPassword", "CheckSha2Password"} {
-			if f := c.Method(serverRel, "Manager", mname); f != nil {
-				checks[f] = true
-			}
-		}
+		checks := credentialCheckFns(c)
 		lk := callsIn(hhr, func(cc *ssa.CallCommon) bool { return mLookup != nil && callsFunc(cc, mLookup) })
-		if len(lk) != 1 || len(checks) != 3 {
+		if len(lk) != 1 || len(checks) < 3 {
 			r.undecided(rule, name, "bind:lookup", c.Pos(hhr.Pos()), "expected exactly one Manager.GetNamespaceByUser call and the three Manager.Check*Password methods")
 		} else {
 			cc := callCommon(lk[0])
@@ -706,7 +792,13 @@ func ruleC29(c *Ctx, r *Report) {
 				if call, ok := in.(*ssa.Call); ok {
 					if f := staticCallee(&call.Call); f != nil && checks[f] {
 						checkCalls = append(checkCalls, call)
-						if !sameVal(call.Call.Args[1], userArg) {
+						has := false
+						for _, a := range call.Call.Args[1:] {
+							if sameVal(a, userArg) {
+								has = true
+							}
+						}
+						if !has {
 							sameUser = false
 						}
 					}
@@ -818,49 +910,6 @@ func ruleC29(c *Ctx, r *Report) {
 		if nu == 0 {
 			r.undecided(rule, name, "clone:password-list-copied", c.Pos(clone.Pos()), "no store into the clone's users map found")
 		}
-		cname := c.FuncName(clear)
-		allInstrs(clear, func(in ssa.Instruction) {
-			mu, ok := in.(*ssa.MapUpdate)
-			if !ok || !mapOfField(mu.Map, fUsers) {
-				return
-			}
-			// walk the append chain down to its base
-			okBase := true
-			seen := map[ssa.Value]bool{}
-			var walk func(v ssa.Value)
-			walk = func(v ssa.Value) {
-				v = stripValue(v)
-				if seen[v] {
-					return
-				}
-				seen[v] = true
-				switch x := v.(type) {
-				case *ssa.Phi:
-					for _, e := range x.Edges {
-						walk(e)
-					}
-				case *ssa.Call:
-					if b, ok := x.Call.Value.(*ssa.Builtin); ok && b.Name() == "append" {
-						walk(x.Call.Args[0])
-						return
-					}
-					okBase = false
-				case *ssa.Const:
-					if !x.IsNil() {
-						okBase = false
-					}
-				case *ssa.MakeSlice:
-				default:
-					okBase = false
-				}
-			}
-			walk(mu.Value)
-			if okBase {
-				r.ok(rule, cname, "clear:new-list", c.Pos(mu.Pos()), "the filtered password list is built from nil, not in place")
-			} else {
-				r.viol(rule, cname, "clear:new-list", c.Pos(mu.Pos()), "the filtered password list reuses the existing list's backing array (filtered in place): a list still shared with another UserManager is rewritten under it")
-			}
-		})
 	}
 
 	// ---- (clone) Manager edits only fresh copies
@@ -1668,10 +1717,10 @@ func ruleC15(c *Ctx, r *Report) {
 		var placeholderWrites []*ssa.Call
 		var phEdges []CondEdge
 		allInstrs(rewrite, func(in ssa.Instruction) {
-			if b, ok := in.(*ssa.BinOp); ok && b.Op == token.EQL {
+			if b, ok := in.(*ssa.BinOp); ok && (b.Op == token.EQL || b.Op == token.NEQ) {
 				if s, ok := constString(b.Y); ok && s == "?" {
 					for _, e := range condEdges(b) {
-						if e.Val {
+						if e.Val == (b.Op == token.EQL) {
 							phEdges = append(phEdges, e)
 						}
 					}
@@ -1691,14 +1740,109 @@ func ruleC15(c *Ctx, r *Report) {
 				placeholderWrites = append(placeholderWrites, call)
 			}
 		})
-		if len(placeholderWrites) != 1 {
-			r.undecided(rule, name, "splice:placeholder-write", c.Pos(rewrite.Pos()), fmt.Sprintf("expected exactly one buffer write on the `== \"?\"` edge, found %d", len(placeholderWrites)))
+		// classify a value: escaped (escapeSQL(ItoString#1(args[..])))
+		var itoCall *ssa.Call
+		var escapedCore func(v ssa.Value) bool
+		if len(placeholderWrites) == 0 {
+			r.undecided(rule, name, "splice:placeholder-write", c.Pos(rewrite.Pos()), "no buffer write on the placeholder edge found")
+		} else if len(placeholderWrites) > 1 {
+			// the literal is written in pieces: quote, escaped text, quote (on the quote edge) / escaped text alone
+			escapedCore = func(v ssa.Value) bool {
+				call, ok := stripValue(resolveLoad(stripValue(v))).(*ssa.Call)
+				if !ok || !callsFunc(&call.Call, esc) {
+					return false
+				}
+				ex, ok := stripValue(resolveLoad(stripValue(call.Call.Args[0]))).(*ssa.Extract)
+				if !ok || ex.Index != 1 {
+					return false
+				}
+				ic, ok := ex.Tuple.(*ssa.Call)
+				if !ok || !callsFunc(&ic.Call, ito) {
+					return false
+				}
+				u, ok := stripValue(ic.Call.Args[0]).(*ssa.UnOp)
+				if !ok || u.Op != token.MUL {
+					return false
+				}
+				ia, ok := u.X.(*ssa.IndexAddr)
+				if !ok || !isArgsSlice(ia.X) {
+					return false
+				}
+				itoCall = ic
+				return true
+			}
+			var eW, qW []*ssa.Call
+			good, why := true, ""
+			for _, w := range placeholderWrites {
+				a := w.Call.Args[len(w.Call.Args)-1]
+				if escapedCore(a) {
+					eW = append(eW, w)
+					continue
+				}
+				if k, ok := constInt(a); ok {
+					quoteChars[byte(k)] = true
+					qW = append(qW, w)
+					continue
+				}
+				if sv, ok := constString(a); ok && len(sv) == 1 {
+					quoteChars[sv[0]] = true
+					qW = append(qW, w)
+					continue
+				}
+				good, why = false, "a value other than escapeSQL(ItoString(args[index])) or a single quote character is written for a placeholder"
+			}
+			var quoteVal ssa.Value
+			if itoCall != nil {
+				quoteVal = extractOf(itoCall, 0)
+			}
+			if good && (quoteVal == nil || len(eW) == 0) {
+				good, why = false, "the escaped text or the quote flag of ItoString is not used"
+			}
+			if good && len(quoteChars) != 1 {
+				good, why = false, "the literal is not wrapped in one and the same quote character"
+			}
+			if good {
+				onTrue := func(in ssa.Instruction) bool { return dominatedByCond(in, quoteVal, true) }
+				onFalse := func(in ssa.Instruction) bool { return dominatedByCond(in, quoteVal, false) }
+				for _, q := range qW {
+					if !onTrue(q) {
+						good, why = false, "a quote character is written although ItoString did not ask for quotes"
+					}
+				}
+				anyT, anyF := false, false
+				for _, e := range eW {
+					if !onFalse(e) { // may run with quote == true: needs a quote before and after
+						anyT = true
+						before, after := false, false
+						for _, q := range qW {
+							if instrDominates(q, e) || (q.Block() != e.Block() && blockReachable(q.Block(), e.Block()) && !blockReachable(e.Block(), q.Block())) {
+								before = true
+							}
+							if instrDominates(e, q) || (q.Block() != e.Block() && blockReachable(e.Block(), q.Block()) && !blockReachable(q.Block(), e.Block())) {
+								after = true
+							}
+						}
+						if !before || !after {
+							good, why = false, "on the quote==true edge the escaped text is written without a quote character before and after it: a byte string is spliced as SQL text"
+						}
+					}
+					if !onTrue(e) {
+						anyF = true
+					}
+				}
+				if good && (!anyT || !anyF) {
+					good, why = false, "the escaped text is not written on both the quoted and the unquoted path"
+				}
+			}
+			if good {
+				r.ok(rule, name, "splice:escaped-and-quoted", c.Pos(placeholderWrites[0].Pos()), "the placeholder text is escapeSQL(ItoString(args[index])), written between two quote characters exactly on the quote==true edge")
+			} else {
+				r.viol(rule, name, "splice:escaped-and-quoted", c.Pos(placeholderWrites[0].Pos()), why)
+			}
 		} else {
 			w := placeholderWrites[0]
 			arg := w.Call.Args[len(w.Call.Args)-1]
-			// classify a leaf: escaped (contains escapeSQL(ItoString#1(args[..]))), with/without quotes
-			var itoCall *ssa.Call
-			escapedCore := func(v ssa.Value) bool {
+			escapedCore = func(v ssa.Value) bool {
 				call, ok := stripValue(v).(*ssa.Call)
 				if !ok || !callsFunc(&call.Call, esc) {
 					return false
@@ -1837,6 +1981,53 @@ func ruleC15(c *Ctx, r *Report) {
 	// ---- escape
 	{
 		name := c.FuncName(esc)
+		// first choice: evaluate the per-byte decision concretely (256 bytes x 2 modes), following helper calls; this does
+		// not depend on how the decision is written. Only when the loop has a shape the evaluator cannot run, the
+		// structural reading below is used.
+		var semModeParam *ssa.Parameter
+		for _, p := range esc.Params[1:] {
+			if isBoolType(p.Type()) {
+				semModeParam = p
+			}
+		}
+		tbl, semantic := escapeTable(c, esc, semModeParam)
+		semModeDiffers := false
+		if semantic {
+			okPrefix, detail := true, ""
+			for m := 0; m < 2; m++ {
+				for b := 0; b < 256; b++ {
+					pf := tbl[m][b]
+					if len(pf) == 0 {
+						continue
+					}
+					if len(pf) > 1 || !(pf[0] == '\\' || (quoteChars[pf[0]] && pf[0] == byte(b))) {
+						okPrefix, detail = false, fmt.Sprintf("byte %q gets the prefix %q (mode flag %v)", string(rune(b)), string(pf), m == 1)
+					}
+					if len(tbl[0][b]) != len(tbl[1][b]) || (len(pf) > 0 && len(tbl[1-m][b]) > 0 && tbl[1-m][b][0] != pf[0]) {
+						semModeDiffers = true
+					}
+				}
+			}
+			missing := ""
+			need := []byte{'\\'}
+			for q := range quoteChars {
+				need = append(need, q)
+			}
+			for _, b := range need {
+				if len(tbl[0][b]) == 0 {
+					missing += fmt.Sprintf(" %q", string(rune(b)))
+				}
+			}
+			switch {
+			case !okPrefix:
+				r.viol(rule, name, "escape:prefix-on-recognised-bytes", c.Pos(esc.Pos()), "the escape decision, evaluated for every byte, prefixes something other than a backslash or the doubled quote: "+detail)
+			case missing != "":
+				r.viol(rule, name, "escape:covers-quote-char", c.Pos(esc.Pos()), "escapeSQL does not escape"+missing+", which GetRewriteSQL relies on (the quote character it wraps byte strings with, and the escape character itself): a bound value can terminate its literal")
+			default:
+				r.ok(rule, name, "escape:prefix-on-recognised-bytes", c.Pos(esc.Pos()), "evaluated for all 256 bytes in both modes: a prefix is a backslash or the doubled quote, nothing else")
+				r.ok(rule, name, "escape:covers-quote-char", c.Pos(esc.Pos()), "in the default mode the backslash and the quote character used by GetRewriteSQL get an escape prefix")
+			}
+		}
 		set := map[byte]bool{}
 		var edges []CondEdge
 		allInstrs(esc, func(in ssa.Instruction) {
@@ -1907,6 +2098,8 @@ func ruleC15(c *Ctx, r *Report) {
 			}
 		}
 		switch {
+		case semantic:
+			// decided above
 		case !okEsc:
 			r.viol(rule, name, "escape:prefix-on-recognised-bytes", c.Pos(esc.Pos()), "escapeSQL does not prefix an escape byte (backslash, or the doubled quote) on every edge where it recognised a byte of its escaped set")
 		case missing != "":
@@ -1945,7 +2138,27 @@ func ruleC15(c *Ctx, r *Report) {
 					modeParam = p
 				}
 			}
-			if modeParam != nil {
+			if semantic {
+				modeParam = nil
+				if semModeDiffers {
+					modeParam = semModeParam
+				}
+				if modeParam != nil {
+					for q := range quoteChars {
+						if len(tbl[0][q]) > 0 && len(tbl[1][q]) > 0 {
+							r.ok(rule, name, "escape:quote-in-every-mode", c.Pos(esc.Pos()), "the quote character gets an escape prefix in both modes")
+						} else {
+							r.viol(rule, name, "escape:quote-in-every-mode", c.Pos(esc.Pos()), "in one of the two sql_mode branches the quote character is not escaped: a bound value can terminate its literal in that mode")
+						}
+					}
+					if len(tbl[1]['\\']) != 0 {
+						r.viol(rule, name, "escape:backslash-literal-in-nbe-mode", c.Pos(esc.Pos()), "with the mode flag set (NO_BACKSLASH_ESCAPES) a backslash still gets a prefix: the backend reads both bytes, so the value stored differs from the bound value")
+					} else {
+						r.ok(rule, name, "escape:backslash-literal-in-nbe-mode", c.Pos(esc.Pos()), "with the mode flag set a backslash is written as it is")
+					}
+				}
+			}
+			if modeParam != nil && !semantic {
 				// the quote character is recognised whatever the mode: in the mode-independent part, or on both mode edges
 				var modeEdges []CondEdge
 				allInstrs(esc, func(in ssa.Instruction) {
@@ -2290,72 +2503,112 @@ func ruleC14(c *Ctx, r *Report) {
 	} else {
 		r.viol(rule, name, "lexer:count-is-len-offsets", c.Pos(calc.Pos()), "the parameter count is not the number of markers the lexer found")
 	}
-	// (cut) the template is cut at the offsets: every Slice of the sql parameter has bounds derived from elements of offsets
+	// (cut) the template is cut at the offsets: every Slice of the statement text has bounds derived from elements of the
+	// lexer's offsets — in CalcParams itself or in a helper it hands both the text and the offsets to
 	okCut, ncut := true, 0
-	sqlP := ssa.Value(calc.Params[0])
-	isOffsetElem := func(v ssa.Value) bool {
-		for _, l := range phiLeaves(v) {
-			u, ok := l.(*ssa.UnOp)
-			if !ok || u.Op != token.MUL {
-				return false
+	fromHelperCall := func(v ssa.Value) bool {
+		for _, a := range phiLeaves(v) {
+			if ex, ok := a.(*ssa.Extract); ok && ex.Tuple == ssa.Value(helperCall) && ex.Index == 0 {
+				continue
 			}
-			ia, ok := u.X.(*ssa.IndexAddr)
-			if !ok {
-				return false
-			}
-			from := false
-			for _, a := range phiLeaves(ia.X) {
-				if ex, ok := a.(*ssa.Extract); ok && ex.Tuple == ssa.Value(helperCall) && ex.Index == 0 {
-					from = true
-				}
-			}
-			if !from {
-				return false
-			}
+			return false
 		}
 		return true
 	}
-	var boundOK func(v ssa.Value, d int) bool
-	boundOK = func(v ssa.Value, d int) bool {
-		if v == nil {
-			return true
-		}
-		v = stripValue(v)
-		if _, ok := v.(*ssa.Const); ok {
-			return true
-		}
-		if isOffsetElem(v) {
-			return true
-		}
-		if d == 0 {
-			return false
-		}
-		switch x := v.(type) {
-		case *ssa.BinOp:
-			return boundOK(x.X, d-1) && boundOK(x.Y, d-1)
-		case *ssa.Phi:
-			for _, e := range x.Edges {
-				if e == ssa.Value(x) {
-					continue
+	var checkCuts func(fn *ssa.Function, sqlV ssa.Value, isOffsets func(v ssa.Value) bool, depth int)
+	checkCuts = func(fn *ssa.Function, sqlV ssa.Value, isOffsets func(v ssa.Value) bool, depth int) {
+		isOffsetElem := func(v ssa.Value) bool {
+			ls := phiLeaves(v)
+			if len(ls) == 0 {
+				return false
+			}
+			for _, l := range ls {
+				u, ok := l.(*ssa.UnOp)
+				if !ok || u.Op != token.MUL {
+					return false
 				}
-				if !boundOK(e, d-1) {
+				ia, ok := u.X.(*ssa.IndexAddr)
+				if !ok || !isOffsets(ia.X) {
 					return false
 				}
 			}
 			return true
 		}
-		return false
+		var boundOK func(v ssa.Value, d int) bool
+		boundOK = func(v ssa.Value, d int) bool {
+			if v == nil {
+				return true
+			}
+			v = stripValue(v)
+			if _, ok := v.(*ssa.Const); ok {
+				return true
+			}
+			if isOffsetElem(v) {
+				return true
+			}
+			if d == 0 {
+				return false
+			}
+			switch x := v.(type) {
+			case *ssa.BinOp:
+				return boundOK(x.X, d-1) && boundOK(x.Y, d-1)
+			case *ssa.Phi:
+				for _, e := range x.Edges {
+					if e == ssa.Value(x) {
+						continue
+					}
+					if !boundOK(e, d-1) {
+						return false
+					}
+				}
+				return true
+			}
+			return false
+		}
+		allInstrs(fn, func(in ssa.Instruction) {
+			switch x := in.(type) {
+			case *ssa.Slice:
+				if stripValue(x.X) != sqlV {
+					return
+				}
+				ncut++
+				if !boundOK(x.Low, 4) || !boundOK(x.High, 4) {
+					okCut = false
+				}
+			case *ssa.Call:
+				if depth == 0 {
+					return
+				}
+				h := staticCallee(&x.Call)
+				if h == nil || h == fn || !c.InModule(h) || len(h.Blocks) == 0 {
+					return
+				}
+				var sqlP2, offP2 *ssa.Parameter
+				for k, a := range x.Call.Args {
+					if k >= len(h.Params) {
+						break
+					}
+					if stripValue(a) == sqlV {
+						sqlP2 = h.Params[k]
+					}
+					if isOffsets(a) {
+						offP2 = h.Params[k]
+					}
+				}
+				if sqlP2 != nil && offP2 != nil {
+					checkCuts(h, sqlP2, func(v ssa.Value) bool {
+						for _, l := range phiLeaves(v) {
+							if l != ssa.Value(offP2) {
+								return false
+							}
+						}
+						return true
+					}, depth-1)
+				}
+			}
+		})
 	}
-	allInstrs(calc, func(in ssa.Instruction) {
-		sl, ok := in.(*ssa.Slice)
-		if !ok || stripValue(sl.X) != sqlP {
-			return
-		}
-		ncut++
-		if !boundOK(sl.Low, 4) || !boundOK(sl.High, 4) {
-			okCut = false
-		}
-	})
+	checkCuts(calc, ssa.Value(calc.Params[0]), fromHelperCall, 1)
 	if ncut > 0 && okCut {
 		r.ok(rule, name, "cut:pieces-at-offsets", c.Pos(calc.Pos()), fmt.Sprintf("the %d text pieces are cut at the lexer's offsets", ncut))
 	} else {
@@ -2371,19 +2624,9 @@ func ruleC14(c *Ctx, r *Report) {
 		} else {
 			tok := extractOf(scans[0].(ssa.Value), 0)
 			var edges []CondEdge
-			allInstrs(helper, func(in ssa.Instruction) {
-				b, ok := in.(*ssa.BinOp)
-				if !ok || b.Op != token.EQL || tok == nil || stripValue(b.X) != ssa.Value(tok) {
-					return
-				}
-				if k, ok := constInt(b.Y); ok && k == markerVal {
-					for _, e := range condEdges(b) {
-						if e.Val {
-							edges = append(edges, e)
-						}
-					}
-				}
-			})
+			if tok != nil {
+				edges = eqConstEdges(helper, func(v ssa.Value) bool { return v == ssa.Value(tok) }, markerVal)
+			}
 			na, okApp := 0, true
 			allInstrs(helper, func(in ssa.Instruction) {
 				call, ok := in.(*ssa.Call)
@@ -2525,18 +2768,8 @@ func scanLoopStopsOnInvalid(c *Ctx, fn *ssa.Function, scan *ssa.Function) (bool,
 			continue
 		}
 		found := false
-		allInstrs(fn, func(in ssa.Instruction) {
-			b, ok := in.(*ssa.BinOp)
-			if !ok || b.Op != token.EQL || stripValue(b.X) != ssa.Value(tok) {
-				return
-			}
-			if k, ok := constInt(b.Y); !ok || k != inv {
-				return
-			}
-			for _, e := range condEdges(b) {
-				if !e.Val {
-					continue
-				}
+		for _, e := range eqConstEdges(fn, func(v ssa.Value) bool { return v == ssa.Value(tok) }, inv) {
+			{
 				again := false
 				searchExits(fn, nil, e.If.Block().Succs[e.Succ], SearchOpts{Stop: func(x ssa.Instruction) bool {
 					if x == sc {
@@ -2549,7 +2782,7 @@ func scanLoopStopsOnInvalid(c *Ctx, fn *ssa.Function, scan *ssa.Function) (bool,
 					found = true
 				}
 			}
-		})
+		}
 		if !found {
 			return false, "the loop keeps scanning after the lexer returned its `invalid` token; the scanner does not advance past such a byte (e.g. NUL), so the loop never ends and the session goroutine spins"
 		}
@@ -2742,44 +2975,56 @@ func ruleC13(c *Ctx, r *Report) {
 			}
 		}
 	}
-	// the NULL bitmap is per row: the slice whose bits are set for NULL columns is made inside the loop over the rows
+	// the NULL bitmap is per row: the slice whose bits are set for NULL columns is made anew for every row — inside the loop
+	// over the rows, or inside a helper that the loop calls once per row
 	if bb := c.Func("mysql", "BuildBinaryResultset"); bb != nil {
 		bname := c.FuncName(bb)
 		nb := 0
-		allInstrs(bb, func(in ssa.Instruction) {
-			st, ok := in.(*ssa.Store)
-			if !ok {
-				return
-			}
-			ia, ok := st.Addr.(*ssa.IndexAddr)
-			if !ok {
-				return
-			}
-			b, ok := st.Val.(*ssa.BinOp)
-			if !ok || b.Op != token.OR {
-				return
-			}
-			nb++
-			fresh := true
-			for _, l := range phiLeaves(ia.X) {
-				mk, ok := l.(*ssa.MakeSlice)
-				if !ok {
-					fresh = false
-					continue
+		var scan func(fn *ssa.Function, callSite ssa.Instruction, depth int)
+		scan = func(fn *ssa.Function, callSite ssa.Instruction, depth int) {
+			allInstrs(fn, func(in ssa.Instruction) {
+				if st, ok := in.(*ssa.Store); ok {
+					ia, ok := st.Addr.(*ssa.IndexAddr)
+					if !ok {
+						return
+					}
+					b, ok := st.Val.(*ssa.BinOp)
+					if !ok || b.Op != token.OR {
+						return
+					}
+					nb++
+					fresh := true
+					for _, l := range phiLeaves(ia.X) {
+						mk, ok := l.(*ssa.MakeSlice)
+						if !ok {
+							fresh = false
+							continue
+						}
+						inLoop := blockReachable(st.Block(), mk.Block()) && blockReachable(mk.Block(), st.Block())
+						// in a helper: made once per call, and the call itself sits in the row loop of the builder
+						perCall := callSite != nil && blockReachable(callSite.Block(), callSite.Block())
+						if !inLoop && !perCall {
+							fresh = false
+						}
+					}
+					if fresh {
+						r.ok(rule, bname, "bitmap:fresh-per-row", c.Pos(st.Pos()), "the NULL bitmap is allocated anew for every row")
+					} else {
+						r.viol(rule, bname, "bitmap:fresh-per-row", c.Pos(st.Pos()), "the NULL bitmap is allocated once for all rows and never cleared: a column that was NULL in an earlier row is flagged NULL in later rows while its value bytes are still appended")
+					}
+					return
 				}
-				// made inside the loop that contains the store: some block dominating the store can be reached again from
-				// the store, and the allocation lies in that cycle too
-				inLoop := blockReachable(st.Block(), mk.Block()) && blockReachable(mk.Block(), st.Block())
-				if !inLoop {
-					fresh = false
+				if depth == 0 {
+					return
 				}
-			}
-			if fresh {
-				r.ok(rule, bname, "bitmap:fresh-per-row", c.Pos(st.Pos()), "the NULL bitmap is allocated inside the row loop")
-			} else {
-				r.viol(rule, bname, "bitmap:fresh-per-row", c.Pos(st.Pos()), "the NULL bitmap is allocated once for all rows and never cleared: a column that was NULL in an earlier row is flagged NULL in later rows while its value bytes are still appended")
-			}
-		})
+				if cc := callCommon(in); cc != nil {
+					if h := staticCallee(cc); h != nil && h != fn && h.Pkg == fn.Pkg && len(h.Blocks) > 0 && h.Object() != nil && !h.Object().Exported() {
+						scan(h, in, depth-1)
+					}
+				}
+			})
+		}
+		scan(bb, nil, 1)
 		if nb == 0 {
 			r.undecided(rule, bname, "bitmap:fresh-per-row", c.Pos(bb.Pos()), "no NULL-bit store found")
 		}
@@ -3039,4 +3284,299 @@ func ruleC36(c *Ctx, r *Report) {
 			r.viol(rule, name, "gate:nil-only-when-allowed", c.Pos(checkAllowed.Pos()), "checkSQLAllowed can return success for a statement the blacklist matched")
 		}
 	}
+}
+
+
+// credentialCheckFns: Manager.Check*Password and every function of proxy/server with results (bool, string) that merely
+// dispatches to them: each of its returns hands back (#0, #1) of one call to a check function, or (false, "").
+func credentialCheckFns(c *Ctx) map[*ssa.Function]bool {
+	set := map[*ssa.Function]bool{}
+	for _, mname := range []string{"CheckPassword", "CheckHashPassword", "CheckSha2Password"} {
+		if f := c.Method(serverRel, "Manager", mname); f != nil {
+			set[f] = true
+		}
+	}
+	isPair := func(sig *types.Signature) bool {
+		if sig.Results().Len() != 2 {
+			return false
+		}
+		return isBoolType(sig.Results().At(0).Type()) && isStringType(sig.Results().At(1).Type())
+	}
+	for changed := true; changed; {
+		changed = false
+		for _, fn := range c.Funcs {
+			if set[fn] || fn.Pkg == nil || !strings.HasSuffix(fn.Pkg.Pkg.Path(), serverRel) || !isPair(fn.Signature) || len(fn.Blocks) == 0 || c.IsMockFunc(fn) {
+				continue
+			}
+			if fn.Signature.Recv() != nil && namedOf(fn.Signature.Recv().Type()) != nil && namedOf(fn.Signature.Recv().Type()).Obj().Name() == "UserManager" {
+				continue // the primitive checks themselves are judged by MP-C30
+			}
+			okAll, any := true, false
+			for _, ret := range returnsOf(fn) {
+				v0, z0 := retValues(ret, 0)
+				v1, z1 := retValues(ret, 1)
+				if z0 || z1 || len(v0) == 0 || len(v1) == 0 {
+					okAll = false
+					continue
+				}
+				for _, a := range v0 {
+					for _, l := range phiLeaves(a) {
+						if b, ok := constBool(l); ok && !b {
+							continue
+						}
+						ex, ok := l.(*ssa.Extract)
+						if !ok || ex.Index != 0 {
+							okAll = false
+							continue
+						}
+						call, ok := ex.Tuple.(*ssa.Call)
+						if !ok || !set[staticCallee(&call.Call)] {
+							okAll = false
+							continue
+						}
+						any = true
+					}
+				}
+				for _, a := range v1 {
+					for _, l := range phiLeaves(a) {
+						if s, ok := constString(l); ok && s == "" {
+							continue
+						}
+						ex, ok := l.(*ssa.Extract)
+						if !ok || ex.Index != 1 {
+							okAll = false
+							continue
+						}
+						call, ok := ex.Tuple.(*ssa.Call)
+						if !ok || !set[staticCallee(&call.Call)] {
+							okAll = false
+						}
+					}
+				}
+			}
+			if okAll && any {
+				set[fn] = true
+				changed = true
+			}
+		}
+	}
+	return set
+}
+
+// ---------------------------------------------------------------------------------------
+// concrete evaluation of the per-byte escape decision (finite domain: 256 bytes x 2 modes)
+
+type cevalCtx struct {
+	c     *Ctx
+	depth int
+}
+
+// cevalFn evaluates a module function whose arguments are all constants; returns its results as constants.
+func (ce *cevalCtx) cevalFn(fn *ssa.Function, args []constant.Value) ([]constant.Value, bool) {
+	if ce.depth > 3 || len(fn.Blocks) == 0 || len(args) != len(fn.Params) {
+		return nil, false
+	}
+	env := map[ssa.Value]constant.Value{}
+	for i, p := range fn.Params {
+		env[p] = args[i]
+	}
+	ce.depth++
+	defer func() { ce.depth-- }()
+	_, res, ok := ce.run(fn.Blocks[0], 0, nil, env, nil)
+	return res, ok
+}
+
+// run executes from block b at instruction index `from`. emit is called for every element appended by an `append`
+// builtin (value known or not); when emit returns false execution stops successfully. Returns the results of a Return.
+func (ce *cevalCtx) run(b *ssa.BasicBlock, from int, prev *ssa.BasicBlock, env map[ssa.Value]constant.Value, emit func(v ssa.Value, k constant.Value, known bool) bool) (stopped bool, results []constant.Value, ok bool) {
+	get := func(v ssa.Value) (constant.Value, bool) {
+		v = stripValue(v)
+		if k, ok := v.(*ssa.Const); ok {
+			if k.Value == nil {
+				return nil, false
+			}
+			return k.Value, true
+		}
+		x, ok := env[v]
+		return x, ok
+	}
+	tuples := map[ssa.Value][]constant.Value{}
+	for steps := 0; steps < 2000; steps++ {
+		var next *ssa.BasicBlock
+		for i := from; i < len(b.Instrs); i++ {
+			switch x := b.Instrs[i].(type) {
+			case *ssa.Phi:
+				for j, p := range b.Preds {
+					if p == prev {
+						if v, ok := get(x.Edges[j]); ok {
+							env[x] = v
+						}
+					}
+				}
+			case *ssa.BinOp:
+				a, ok1 := get(x.X)
+				bb, ok2 := get(x.Y)
+				if !ok1 || !ok2 {
+					continue
+				}
+				switch x.Op {
+				case token.EQL, token.NEQ, token.LSS, token.LEQ, token.GTR, token.GEQ:
+					env[x] = constant.MakeBool(constant.Compare(a, x.Op, bb))
+				case token.ADD, token.SUB, token.MUL, token.AND, token.OR, token.XOR:
+					if a.Kind() == constant.Bool {
+						continue
+					}
+					env[x] = constant.BinaryOp(a, x.Op, bb)
+				}
+			case *ssa.UnOp:
+				if x.Op == token.NOT {
+					if a, ok := get(x.X); ok {
+						env[x] = constant.MakeBool(!constant.BoolVal(a))
+					}
+				}
+			case *ssa.Convert:
+				if a, ok := get(x.X); ok && a.Kind() == constant.Int {
+					env[x] = a
+				}
+			case *ssa.Extract:
+				if t, ok := tuples[x.Tuple]; ok && x.Index < len(t) && t[x.Index] != nil {
+					env[x] = t[x.Index]
+				}
+			case *ssa.Call:
+				if bi, ok := x.Call.Value.(*ssa.Builtin); ok {
+					if bi.Name() == "append" && emit != nil && len(x.Call.Args) == 2 {
+						for _, el := range variadicElems(x.Call.Args[1]) {
+							k, known := get(el)
+							if !emit(stripValue(el), k, known) {
+								return true, nil, true
+							}
+						}
+					}
+					continue
+				}
+				h := staticCallee(&x.Call)
+				if h == nil || !ce.c.InModule(h) {
+					continue
+				}
+				var args []constant.Value
+				all := true
+				for _, a := range x.Call.Args {
+					k, ok := get(a)
+					if !ok {
+						all = false
+						break
+					}
+					args = append(args, k)
+				}
+				if !all {
+					continue
+				}
+				if res, ok := ce.cevalFn(h, args); ok {
+					if len(res) == 1 {
+						env[x] = res[0]
+					}
+					tuples[x] = res
+				}
+			case *ssa.If:
+				cv, ok := get(x.Cond)
+				if !ok || cv.Kind() != constant.Bool {
+					return false, nil, false
+				}
+				if constant.BoolVal(cv) {
+					next = b.Succs[0]
+				} else {
+					next = b.Succs[1]
+				}
+			case *ssa.Jump:
+				next = b.Succs[0]
+			case *ssa.Return:
+				var res []constant.Value
+				for _, rv := range x.Results {
+					k, ok := get(rv)
+					if !ok {
+						res = append(res, nil)
+					} else {
+						res = append(res, k)
+					}
+				}
+				return false, res, true
+			case *ssa.Panic:
+				return false, nil, false
+			}
+		}
+		if next == nil {
+			return false, nil, false
+		}
+		prev, b, from = b, next, 0
+	}
+	return false, nil, false
+}
+
+// escapeTable evaluates, for every byte value and both values of the mode parameter, which constant bytes one iteration of
+// esc's loop appends before it appends the byte itself. ok=false when the loop does not have a shape the evaluator can run.
+func escapeTable(c *Ctx, esc *ssa.Function, modeParam *ssa.Parameter) (table [2][256][]byte, ok bool) {
+	// the element: a byte loaded from (a conversion of) the text parameter inside a loop
+	var elem ssa.Value
+	var at ssa.Instruction
+	textP := ssa.Value(esc.Params[0])
+	allInstrs(esc, func(in ssa.Instruction) {
+		if elem != nil {
+			return
+		}
+		switch x := in.(type) {
+		case *ssa.UnOp:
+			if x.Op != token.MUL {
+				return
+			}
+			ia, ok := x.X.(*ssa.IndexAddr)
+			if !ok {
+				return
+			}
+			base := stripValue(ia.X)
+			if cv, ok := base.(*ssa.Convert); ok && stripValue(cv.X) == textP {
+				elem, at = x, in
+			}
+		case *ssa.Lookup:
+			if stripValue(x.X) == textP && isStringType(x.X.Type()) {
+				elem, at = x, in
+			}
+		case *ssa.Index:
+			if stripValue(x.X) == textP {
+				elem, at = x, in
+			}
+		}
+	})
+	if elem == nil {
+		return table, false
+	}
+	ce := &cevalCtx{c: c}
+	for m := 0; m < 2; m++ {
+		for b := 0; b < 256; b++ {
+			env := map[ssa.Value]constant.Value{elem: constant.MakeInt64(int64(b))}
+			if modeParam != nil {
+				env[modeParam] = constant.MakeBool(m == 1)
+			}
+			var prefix []byte
+			sawElem := false
+			good := true
+			stopped, _, okRun := ce.run(at.Block(), instrIndex(at)+1, nil, env, func(v ssa.Value, k constant.Value, known bool) bool {
+				if v == elem {
+					sawElem = true
+					return false
+				}
+				if !known || k.Kind() != constant.Int {
+					good = false
+					return false
+				}
+				n, _ := constant.Int64Val(k)
+				prefix = append(prefix, byte(n))
+				return true
+			})
+			if !okRun || !stopped || !sawElem || !good {
+				return table, false
+			}
+			table[m][b] = prefix
+		}
+	}
+	return table, true
 }
